@@ -104,6 +104,12 @@ Proof.
   - apply in_map_iff in Hp as [o' [<- Io']]. right. split; [reflexivity | now apply Fo].
   - apply in_flat_map in Hp as [s' [Is' Hp]]. apply in_map_iff in Hp as [o' [<- _]]. left. now apply Fa.
 Qed.
+(* swapping the operands swaps every pair *)
+Corollary co_iter_swap a b s o : wf eps a -> wf eps b ->
+  (In (s, o) (co_iter eps a b) <-> In (o, s) (co_iter eps b a)).
+Proof.
+  intros Ha Hb. rewrite (co_iter_In_and a b s o Ha Hb), (co_iter_In_and b a o s Hb Ha), (sand_comm o s). tauto.
+Qed.
 End CoIter.
 
 Section Crop.
